@@ -3,4 +3,4 @@ From LV Require Import Pixel.Translate.
 Require Import ExtrOcamlBasic.
 Extraction Language OCaml.
 Extraction "../build/ocaml/C10/model.ml"
-  mkfmt mkcmap empty_cmap bgr233 set_translate translate_fn reads_fn read_extent table_bytes recolour new_framebuffer.
+  mkfmt mkcmap empty_cmap bgr233 set_translate translate_fn reads_fn read_extent table_bytes recolour recolour_marks_screen wire_flag new_framebuffer.
